@@ -26,6 +26,8 @@ MPS_DEFS = {
              dict(pid='f2', stream='tears', start_s=8, duration_s=8, tracks=[('video', 1, 'MAIN'), ('audio', 2, 'MAIN')])],
     # a period over a stream whose stored fragments are numbered from 5 (the manifest advertises startNumber from the index)
     'mpsr': [dict(pid='n1', stream='rn5', start_s=8, duration_s=20, tracks=[('video', 1, 'MAIN')])],
+    # ... and from 0 (a legal mfhd sequence number, and a falsy one)
+    'mpsz': [dict(pid='z1', stream='rn0', start_s=8, duration_s=20, tracks=[('video', 1, 'MAIN')])],
     'mpsv': [dict(pid='v1', stream='vtt', start_s=10, duration_s=24, tracks=[('video', 1, 'MAIN'), ('text', 4, 'MAIN')]),
              dict(pid='v2', stream='bbb', start_s=0, duration_s=12, tracks=[('video', 1, 'MAIN')])],
 }
@@ -56,6 +58,9 @@ def main(tier_: str) -> int:
             rn5 = d / 'rn5_v7.mp4'
             rn5.write_bytes(renumber_mfhd((REPO / 'tests' / 'fixtures' / 'bbb' / 'bbb_v7.mp4').read_bytes(), first=5, step=1))
             da.add_fixture('bbb', directory='rn5', title='fragments numbered from 5', only={'bbb_a1'}, extra=[(rn5, 'rn5_v7')])
+            rn0 = d / 'rn0_v7.mp4'
+            rn0.write_bytes(renumber_mfhd((REPO / 'tests' / 'fixtures' / 'bbb' / 'bbb_v7.mp4').read_bytes(), first=0, step=1))
+            da.add_fixture('bbb', directory='rn0', title='fragments numbered from 0', only={'bbb_a1'}, extra=[(rn0, 'rn0_v7')])
             for name, periods in MPS_DEFS.items():
                 da.add_mps(name=name, title=f'MPS {name}', periods=periods)
             drv = HttpDriver(da)
